@@ -91,21 +91,58 @@ fn cross_document_order(seed: u64, k: u64) -> Sexp {
     let names = ["Box", "Panel", "Item"];
     let ndirs = 2 + rng.below(2);
     let mut forms: Vec<String> = vec![];
+    let mut defined: Vec<Vec<(&str, &str)>> = vec![];
     for d in 0..ndirs {
         let dn = format!("d{d}");
         std::fs::create_dir_all(dir.path().join(&dn)).unwrap();
         let mut used = vec![];
-        for n in names.iter().take(1 + rng.below(3)) {
-            let base = *rng.pick(&bases);
-            std::fs::write(dir.path().join(&dn).join(format!("{n}.qml")), format!("import qmluic.QtWidgets\n\n{base} {{\n}}\n")).unwrap();
-            used.push((*n, base));
+        // every directory defines a random subset of the names (so that an imported directory can define a name the
+        // importing one lacks, and two imported ones can define the same name)
+        for n in names.iter() {
+            if used.is_empty() && *n == names[names.len() - 1] || rng.chance(2, 3) {
+                let base = *rng.pick(&bases);
+                std::fs::write(dir.path().join(&dn).join(format!("{n}.qml")), format!("import qmluic.QtWidgets\n\n{base} {{\n}}\n")).unwrap();
+                used.push((*n, base));
+            }
         }
+        defined.push(used);
+    }
+    for d in 0..ndirs {
+        let dn = format!("d{d}");
+        let used = defined[d].clone();
         for f in 0..(1 + rng.below(2)) {
-            let mut t = String::from("import qmluic.QtWidgets\n\nQDialog {\n");
+            let mut imported_only: Vec<&str> = vec![];
+            // a versioned import is a warning; explicit imports of the OTHER directories (which define the same names on
+            // other bases) in either order: which definition a name resolves to must not vary
+            let mut t = String::from(if rng.chance(1, 4) { "import qmluic.QtWidgets 6.2\n" } else { "import qmluic.QtWidgets\n" });
+            if rng.chance(1, 2) {
+                let mut others: Vec<usize> = (0..ndirs).filter(|o| *o != d).collect();
+                rng.shuffle(&mut others);
+                for o in others {
+                    t.push_str(&format!("import \"../d{o}\"\n"));
+                    for (n, _) in &defined[o] {
+                        if !used.iter().any(|(u, _)| u == n) && !imported_only.contains(n) {
+                            imported_only.push(n);
+                        }
+                    }
+                }
+            }
+            t.push_str("\nQDialog {\n");
+            // diagnostics of a document must not depend on what was translated before it in the same process: a handler
+            // with a return type annotation (warning), an unknown property (error)
+            if rng.chance(1, 2) {
+                t.push_str("    QPushButton { onClicked: function(checked: bool): void { } }\n");
+            }
+            if rng.chance(1, 5) {
+                t.push_str("    QLabel { txet: \"typo\" }\n");
+            }
             for (n, base) in &used {
                 // a child below the component where its base allows one
                 let child = if base.ends_with("Layout") || *base == "QGroupBox" || *base == "QFrame" || *base == "QWidget" { " QLabel { text: \"x\" } " } else { "" };
                 t.push_str(&format!("    {n} {{{child}}}\n"));
+            }
+            for n in &imported_only {
+                t.push_str(&format!("    {n} {{ }}\n"));
             }
             t.push_str("}\n");
             let rel = format!("{dn}/Form{f}.qml");
@@ -114,6 +151,8 @@ fn cross_document_order(seed: u64, k: u64) -> Sexp {
         }
     }
     let run = |order: &[String]| -> BTreeMap<String, Vec<u8>> {
+        // the outputs, plus one entry `diagnostics:<source>` per source: what the CLI printed between "processing <source>"
+        // and the next such line
         // fresh copy of the outputs: remove what an earlier run wrote
         for d in 0..ndirs {
             if let Ok(rd) = std::fs::read_dir(dir.path().join(format!("d{d}"))) {
@@ -125,17 +164,30 @@ fn cross_document_order(seed: u64, k: u64) -> Sexp {
                 }
             }
         }
-        let _ = std::process::Command::new(&bin)
+        let out = std::process::Command::new(&bin)
             .current_dir(dir.path())
+            .env("NO_COLOR", "1")
             .arg("generate-ui")
             .arg("--foreign-types")
             .arg(format!("{}/contrib/metatypes", env::REPO))
             .args(order)
             .stdin(std::process::Stdio::null())
             .stdout(std::process::Stdio::null())
-            .stderr(std::process::Stdio::null())
-            .status();
+            .output();
         let mut m = BTreeMap::new();
+        if let Ok(out) = out {
+            let mut cur: Option<String> = None;
+            for line in String::from_utf8_lossy(&out.stderr).lines() {
+                if let Some(src) = line.trim().strip_prefix("processing ") {
+                    cur = Some(format!("diagnostics:{}", src.trim()));
+                    m.insert(cur.clone().unwrap(), Vec::new());
+                } else if let Some(k) = &cur {
+                    let e: &mut Vec<u8> = m.get_mut(k).unwrap();
+                    e.extend_from_slice(line.as_bytes());
+                    e.push(b'\n');
+                }
+            }
+        }
         for d in 0..ndirs {
             if let Ok(rd) = std::fs::read_dir(dir.path().join(format!("d{d}"))) {
                 for e in rd.flatten() {
@@ -154,6 +206,10 @@ fn cross_document_order(seed: u64, k: u64) -> Sexp {
         let m = run(std::slice::from_ref(f));
         let stem = f.trim_end_matches(".qml").to_lowercase();
         for (k, v) in m {
+            if k == format!("diagnostics:{f}") {
+                reference.insert(k, v);
+                continue;
+            }
             if k.trim_end_matches(".ui") == stem || k.ends_with(&format!("uisupport_{}.h", stem.rsplit('/').next().unwrap())) && k.starts_with(&stem[..2]) {
                 reference.insert(k, v);
             }
